@@ -365,6 +365,14 @@ def real_picked_fasta(cfg, inp):
     return real_picked(cfg, dict(inp, maps=maps))
 
 
+def _strip_notation(x):
+    import re
+    x = re.sub(r"[\[\(].*?[\]\)]", "", x)
+    x = re.sub(r"^.*?\.", "", x)
+    x = re.sub(r"\..*?$", "", x)
+    return re.sub(r"[a-z]", "", x)
+
+
 def real_conf_proteins(cfg, inp):
     import tempfile
     import re
@@ -396,7 +404,12 @@ def real_conf_proteins(cfg, inp):
             if "could be matched" in str(ex) or "could be mapped" in str(ex):
                 return dict(exception="ValueError", violation=None)
             return dict(exception=repr(ex), violation="assign_confidence(proteins=...) raised %r" % (ex,))
-        except Exception as ex:
+        except BaseException as ex:
+            if not any(_strip_notation(x) in maps["peptide_map"] for x in inp["peptides"]):
+                # no peptide maps to a unique protein group: there is no pair the statement speaks about and the
+                # run cannot produce protein-level results (it stops in the q-value / PEP routines on an empty
+                # table: numba TypingError or SystemExit) - outside the statement
+                return dict(exception=type(ex).__name__, violation=None)
             return dict(exception=repr(ex), violation="assign_confidence(proteins=...) raised %r" % (ex,))
         finally:
             C.peps_from_scores = old
